@@ -20,9 +20,9 @@ Property theorems about `FdtdxModel/C26.lean` (`solve` = `fdtdx.resolve_object_c
   C26_static_shape, C26_static_position   partial_grid_shape / partial_real_shape / partial_real_position hold
   C26_nearest           the snapping used by all of them (`argminAbs`) returns the FIRST index of an element
                         nearest to the wanted coordinate (ordered field) — "nearest-edge snapping"
-  C26_unconstrained_partial   an axis of an object that nothing talks about: IF its bounds are known they were
-                        written by the extension step only … see the statement; the full "spans the volume"
-                        statement is kept as a comment (not_shown)
+  C26_unconstrained     an axis of a non-volume object that nothing talks about (no static shape/position, no
+                        constraint on it) ends as lo = 0, hi = volume size — the volume's own slice when the volume
+                        has no partial_real_position there (hypothesis: the volume declares its shape, `volSizedInit`)
 
 Refutation witnesses for the pinned tree (`AsFound.solve`): `asFound_*` examples at the end, and the same
 inputs rejected by `solve`.
@@ -30,6 +30,7 @@ inputs rejected by `solve`.
 import FdtdxLemmas.C26Sys
 import FdtdxLemmas.C26Snap
 import FdtdxLemmas.C26Witness
+import FdtdxLemmas.C26Free
 
 namespace Fdtdx.C26
 
@@ -434,6 +435,90 @@ theorem C26_static_position {sys : Sys α} {n : Nat} {r : St} (h : solve sys n =
   subst hx
   exact ⟨lo, hi, h1, h2, hf⟩
 
+theorem volId_of_isVol {sys : Sys α} (h1 : OneVol sys) {o : Obj α} (ho : o ∈ sys.objs) (hv : o.isVol = true) :
+    volId sys = o.id := by
+  unfold OneVol at h1
+  obtain ⟨v, hv'⟩ := List.length_eq_one_iff.1 h1
+  have hmem : o ∈ sys.objs.filter (·.isVol) := List.mem_filter.2 ⟨ho, hv⟩
+  rw [hv'] at hmem
+  simp at hmem
+  subst hmem
+  unfold volId
+  rw [← List.head?_filter, hv']
+  rfl
+
+theorem exists_vol {sys : Sys α} (h1 : OneVol sys) : ∃ v ∈ sys.objs, v.isVol = true ∧ volId sys = v.id := by
+  have h1' := h1
+  unfold OneVol at h1
+  obtain ⟨v, hv'⟩ := List.length_eq_one_iff.1 h1
+  have hmem : v ∈ sys.objs.filter (·.isVol) := by rw [hv']; simp
+  obtain ⟨hm, hiv⟩ := List.mem_filter.1 hmem
+  exact ⟨v, hm, hiv, volId_of_isVol h1' hm hiv⟩
+
+theorem init_apply {sys : Sys α} {σ₀ : St} (hi : init sys = some σ₀) (hn : (sys.objs.map (·.id)).Nodup)
+    {o : Obj α} (ho : o ∈ sys.objs) {ax : Nat} (hax : ax < 3) (k : Kind) :
+    σ₀ ⟨o.id, ax, k⟩ = o.initVal sys.grid ax k := by
+  unfold init at hi
+  split at hi
+  · cases hi
+  · simp only [Option.some.injEq] at hi
+    subst hi
+    have hf : findObj sys o.id = some o := find?_id_mem sys.objs hn ho
+    simp only [hax, if_true, hf]
+
+/-- **C26_unconstrained** — an axis of a (non-volume) object about which nothing is said — no static shape or
+position, no constraint — ends up as `lo = 0`, `hi = size of the volume`; if the volume itself has no
+`partial_real_position` on that axis this is exactly the volume's slice: the object spans the whole volume. -/
+theorem C26_unconstrained {sys : Sys α} {n : Nat} {r : St} (h : solve sys n = .done r [])
+    (hvol : volSizedInit sys = true) {o : Obj α} (ho : o ∈ sys.objs) (hne : o.id ≠ volId sys)
+    {ax : Nat} (hax : ax < 3) (hfree : Unconstrained sys o.id ax) :
+    (∃ vs, r ⟨volId sys, ax, .size⟩ = some vs ∧ r ⟨o.id, ax, .lo⟩ = some 0 ∧ r ⟨o.id, ax, .hi⟩ = some vs) ∧
+    ((∀ v ∈ sys.objs, v.isVol = true → v.rpos.getD ax none = none) →
+      r ⟨o.id, ax, .lo⟩ = r ⟨volId sys, ax, .lo⟩ ∧ r ⟨o.id, ax, .hi⟩ = r ⟨volId sys, ax, .hi⟩) := by
+  obtain ⟨hwf, σ₀, hinit, hloop, _⟩ := solve_done h
+  obtain ⟨_, _, hk, _⟩ := C26_sound sys n r h
+  have hnd := wellFormed_nodup hwf
+  have h1v := wellFormed_oneVol hwf
+  obtain ⟨vs, hvs⟩ := volSizedInit_spec hvol hinit ax hax
+  have hnv : o.isVol = false := by
+    cases hv : o.isVol with
+    | false => rfl
+    | true => exact absurd (volId_of_isVol h1v ho hv).symm hne
+  obtain ⟨hg, hr, hp⟩ := hfree.1 o ho rfl
+  have hss : o.staticSize sys.grid ax = some none := by simp only [Obj.staticSize, hg, hr]
+  have hsl : o.staticLower sys.grid ax = some none := by simp only [Obj.staticLower, hp]
+  have hP0 : FreeInv sys o.id ax vs σ₀ := by
+    refine ⟨hvs, Or.inl ⟨?_, ?_, ?_⟩⟩
+    · rw [init_apply hinit hnd ho hax]; simp [Obj.initVal, hsl, hnv]
+    · rw [init_apply hinit hnd ho hax]; simp [Obj.initVal, hsl]
+    · rw [init_apply hinit hnd ho hax]; simp [Obj.initVal, hss]
+  have hPr : FreeInv sys o.id ax vs r :=
+    loop_inv (FreeInv sys o.id ax vs) sys (groups sys) (fun a ha ρ x => freeInv_step hfree a ha ρ x)
+      (fun ρ => freeInv_ext hfree (isObj_iff.2 ⟨o, ho, rfl⟩) hax ρ) n σ₀ [] r [] hP0 hloop
+  obtain ⟨lo, hi, h1, h2, _⟩ := hk o ho ax hax
+  obtain ⟨hvr, hst⟩ := hPr
+  have hfin : r ⟨o.id, ax, .lo⟩ = some 0 ∧ r ⟨o.id, ax, .hi⟩ = some vs := by
+    rcases hst with ⟨g1, _, _⟩ | ⟨g1, g2, _⟩
+    · rw [g1] at h1; cases h1
+    · exact ⟨g1, g2⟩
+  refine ⟨⟨vs, hvr, hfin.1, hfin.2⟩, fun hvp => ?_⟩
+  obtain ⟨v, hvm, hiv, hvid⟩ := exists_vol h1v
+  obtain ⟨vlo, vhi, q1, q2, q3⟩ := hk v hvm ax hax
+  rw [← hvid] at q1 q2 q3
+  have hv0 : σ₀ ⟨volId sys, ax, .lo⟩ = some 0 := by
+    rw [hvid, init_apply hinit hnd hvm hax]
+    have : v.staticLower sys.grid ax = some none := by simp only [Obj.staticLower, hvp v hvm hiv]
+    simp [Obj.initVal, this, hiv]
+  have hr0 := loop_mono sys (groups sys) n σ₀ [] r [] hloop _ _ hv0
+  rw [q1] at hr0
+  rw [q3] at hvr
+  have e1 : vlo = 0 := Option.some.inj hr0
+  have e2 : vhi - vlo = vs := Option.some.inj hvr
+  rw [hfin.1, hfin.2, q1, q2, e1]
+  refine ⟨rfl, ?_⟩
+  congr 1
+  omega
+
 /-- C26_nearest: the snapping function behind `coord_to_index`, `bounds_for_anchor`, `bounds_for_center` picks
 the FIRST index whose element is nearest to the wanted coordinate (any ordered field). -/
 theorem C26_nearest {K : Type} [Field K] [LinearOrder K] [IsStrictOrderedRing K] (xs : List K) (c : K) (hne : xs ≠ []) :
@@ -464,6 +549,13 @@ example : okAnd (solve (sysR [full 3 3, full 2 0, sizeAB, extAC,
 example : okAnd (solve ⟨gInt, [vol8, cube 1, box 2 false [none, some 2, some 2]],
       [.gridc 2 [(1, false, 0), (2, false, 3)], full 1 3]⟩ 10)
     (fun σ => σ ⟨2, 0, .lo⟩ == some 0 && σ ⟨2, 0, .hi⟩ == some 8 && σ ⟨2, 2, .hi⟩ == some 5) = true := by decide +kernel
+
+/-- … and the hypotheses of `C26_unconstrained` hold for that axis -/
+example : Unconstrained (⟨gInt, [vol8, cube 1, box 2 false [none, some 2, some 2]],
+      [.gridc 2 [(1, false, 0), (2, false, 3)], full 1 3]⟩ : Sys Int) 2 0 ∧
+    volSizedInit (⟨gInt, [vol8, cube 1, box 2 false [none, some 2, some 2]],
+      [.gridc 2 [(1, false, 0), (2, false, 3)], full 1 3]⟩ : Sys Int) = true := by
+  refine ⟨⟨?_, ?_⟩, ?_⟩ <;> decide +kernel
 
 /-- the error branches: a conflict, an object outside the volume, running out of `max_iter` -/
 example : okAnd (solve (sysW [posAB, full 2 1, full 1 5]) 10) (fun _ => true) = false := by decide +kernel
